@@ -41,8 +41,9 @@ var c10WebTagRx = []string{"tenant", "k", "k2", "bytes|n", "zzz", "(", "[k"}
 
 func genC10Assign(t *simrt.Tape, sampleTypes []string) string {
 	K := simrt.KGen
-	rx := func() string { return c10Regexps[t.Choose(K, len(c10Regexps))] }
-	trx := func() string { return c10TagRx[t.Choose(K, len(c10TagRx))] }
+	if len(c10ThemeAssigns) > 0 {
+		return genC10AssignCase(t, sampleTypes, c10ThemeAssigns[t.Choose(K, len(c10ThemeAssigns))])
+	}
 	if t.Bool(K, 6) {
 		// any option the tree defines, with a value of its type
 		return treeAssign(t, c10Regexps)
@@ -53,7 +54,20 @@ func genC10Assign(t *simrt.Tape, sampleTypes []string) string {
 	if t.Bool(K, 15) {
 		return []string{"relative_percentages", "tagroot=k", "tagroot=tenant", "tagleaf=k", "divide_by=0", "divide_by=1", "tagshow=(", "taghide=[", "tagshow=", "relative_percentages=false"}[t.Choose(K, 10)]
 	}
-	switch t.Choose(K, 30) {
+	return genC10AssignCase(t, sampleTypes, t.Choose(K, 30))
+}
+
+// c10ThemeCmds / c10ThemeAssigns, when set, restrict a history to a few kinds
+// of commands and options (swarm style): interactions of one particular
+// option with one particular report come up far more often than in a
+// history drawn from everything.
+var c10ThemeCmds, c10ThemeAssigns []int
+
+func genC10AssignCase(t *simrt.Tape, sampleTypes []string, k int) string {
+	K := simrt.KGen
+	rx := func() string { return c10Regexps[t.Choose(K, len(c10Regexps))] }
+	trx := func() string { return c10TagRx[t.Choose(K, len(c10TagRx))] }
+	switch k {
 	case 0:
 		return "focus=" + rx()
 	case 1:
@@ -122,7 +136,11 @@ func genC10Command(t *simrt.Tape, file string) (string, bool) {
 	rx := func() string { return c10Regexps[t.Choose(K, len(c10Regexps))] }
 	var cmd string
 	mut := false
-	switch t.Choose(K, 16) {
+	kc := t.Choose(K, 16)
+	if len(c10ThemeCmds) > 0 {
+		kc = c10ThemeCmds[t.Choose(K, len(c10ThemeCmds))]
+	}
+	switch kc {
 	case 0, 1:
 		cmd = "top"
 	case 2:
@@ -156,8 +174,12 @@ func genC10Command(t *simrt.Tape, file string) (string, bool) {
 		cmd = "svg"
 	}
 	// per-command arguments: focus / ignore regexps, -cum, counts
+	argPct := 35
+	if len(c10ThemeCmds) > 0 {
+		argPct = 12 // themed histories are about options meeting reports, not about arguments
+	}
 	if !strings.HasPrefix(cmd, "peek") && !strings.HasPrefix(cmd, "list") {
-		if t.Bool(K, 35) {
+		if t.Bool(K, argPct) {
 			if cmd == "tags" {
 				cmd += " " + c10TagRx[t.Choose(K, len(c10TagRx))]
 			} else {
@@ -165,7 +187,7 @@ func genC10Command(t *simrt.Tape, file string) (string, bool) {
 			}
 			mut = true
 		}
-		if t.Bool(K, 20) {
+		if t.Bool(K, argPct/2) {
 			cmd += " -" + rx()
 			mut = true
 		}
@@ -212,6 +234,15 @@ func c10Interactive(x *xctx) *violation {
 	if t.Bool(simrt.KCfg, 5) {
 		n = 25 + t.Choose(K, 25) // state that builds up over many steps
 	}
+	if t.Bool(simrt.KCfg, 25) {
+		for i, nc := 0, 1+t.Choose(K, 3); i < nc; i++ {
+			c10ThemeCmds = append(c10ThemeCmds, t.Choose(K, 16))
+		}
+		for i, na := 0, 1+t.Choose(K, 3); i < na; i++ {
+			c10ThemeAssigns = append(c10ThemeAssigns, t.Choose(K, 30))
+		}
+	}
+	defer func() { c10ThemeCmds, c10ThemeAssigns = nil, nil }()
 	var steps []c10step
 	var outNames []string
 	for i := 0; i < n; i++ {
@@ -244,12 +275,24 @@ func c10Interactive(x *xctx) *violation {
 	sessionOSWriter = t.Bool(simrt.KCfg, 35)
 	defer func() { sessionNoDot, sessionOSWriter = false, false }()
 	freshProcess(true)
+	var watch *profileWatch
+	if t.Bool(simrt.KCfg, 50) {
+		watch = &profileWatch{mutatedAt: -1}
+		sessionWatch = watch
+	}
 	sess := runInteractive(x, cfg, prof, nil, lines, nil)
+	sessionWatch = nil
 	if v := resultViolation(sess.res); v != nil {
 		return v
 	}
 	if sess.err != nil {
 		return violf("session-error", "interactive session returned %v", sess.err)
+	}
+	if watch != nil {
+		if watch.mutatedAt >= 0 && watch.mutatedAt < len(lines) {
+			return violf("session-profile-modified", "the profile the session holds was modified by line %d %q (every command is to work on a copy): %s", watch.mutatedAt, lines[watch.mutatedAt], watch.diff)
+		}
+		x.probe("session_profile_watched")
 	}
 	if sess.nread != len(lines)+1 {
 		return violf("session-short", "session read %d lines of %d", sess.nread, len(lines)+1)
